@@ -5,7 +5,7 @@
 package embedding
 
 // wfEmb: every word vector has the index's dimension (established by LoadWordVectors).
-//@ pure func wfEmb(idx *Index) bool = idx != nil && idx.Dimension >= 0 && idx.Dimension <= 1000000 && (forall w string :: (w in idx.WordVectors) ==> len(idx.WordVectors[w]) == idx.Dimension)
+//@ pure func wfEmb(idx *Index) bool = idx != nil && idx.Dimension >= 0 && idx.Dimension <= 65536 && (forall w string :: (w in idx.WordVectors) ==> len(idx.WordVectors[w]) == idx.Dimension)
 //@ func (*Index).EmbedQuery
 //@   requires wfEmb(idx)
 //@   modifies nothing
@@ -13,6 +13,7 @@ package embedding
 //@ func (*Index).SemanticScores
 //@   modifies nothing
 //@   ensures[C19.scores-fresh] fresh(result)
+//@   trusted-ensures[C19.cosine-range] forall k int :: 0 <= k && k < len(result) ==> -1.0 <= result[k] && result[k] <= 1.0
 //@ loop 1
 //@   invariant len(scores) == len(idx.CmdEmbeddings) && fresh(scores)
 //@ func (*Index).EmbedQuery
